@@ -144,5 +144,5 @@ def harnesses(tier):
                          "(c) a transactional batch without a later marker in the response has a decided outcome (response cut below the LSO) and is in the index iff aborted",
                          "(d) an index entry's first offset is <= the first in-response batch of its transaction and > the previous marker of the same producer (transactions of one producer are sequential)"],
             stubs=["record batches replaced by stub objects with the attributes PartitionRecords reads (base_offset, next_offset, producer_id, flags, records)"],
-            max_seconds=400 if q else 3000, max_paths=3000000, twin_max_paths=3000))
+            max_seconds=400 if q else 3000, budget=(900 if nb == 4 else 0), max_paths=3000000, twin_max_paths=3000))
     return hs
